@@ -14,7 +14,6 @@ import (
 func init() {
 	register(&Rule{ID: "R-REBASE", Props: []string{"C13"}, Doc: "StreamLexer: when the buffer is replaced every buffer-coordinate field is re-based by the same offset", Run: runRebase})
 	register(&Rule{ID: "R-STREAMERR", Props: []string{"C13"}, Doc: "StreamLexer.Err hides io.EOF exactly while pos < len(buf)", Run: runStreamErr})
-	register(&Rule{ID: "R-POOLREUSE", Props: []string{"C13"}, Doc: "bufferPool.swap reuses a buffer only when it is inactive / fully freed", Run: runPoolReuse})
 }
 
 func streamMethods(r *core.Run) []*ssa.Function {
@@ -205,12 +204,32 @@ func loadsPrecedeStores(fn *ssa.Function, st *ssa.Store, z string, cf []string) 
 
 func runStreamErr(r *core.Run) {
 	fn := r.Prog.SSAFunc("buffer", "StreamLexer", "Err")
-	if fn == nil {
-		r.BrokenAnchor("buffer.StreamLexer.Err")
+	sr, why := discoverStreamRoles(r)
+	if fn == nil || sr == nil || sr.err == "" {
+		r.BrokenAnchor("buffer.StreamLexer.Err / field roles " + why)
 		return
 	}
 	z := fn.Params[0].Name()
-	remaining := linAtom("len("+z+".buf)").add(linAtom(z+".pos"), -1) // len - pos
+	remaining := linAtom("len("+z+"."+sr.buf+")").add(linAtom(z+"."+sr.pos), -1) // len - pos
+	isErrLoad := func(v ssa.Value) bool { return canon(v) == z+"."+sr.err }
+	// the atoms known at a return: err == io.EOF / err != io.EOF
+	eofKnown := func(b *ssa.BasicBlock, pred *ssa.BasicBlock) (isEOF, notEOF bool) {
+		atoms := guardsAt(b)
+		if pred != nil {
+			atoms = append(append([]condAtom{}, guardsAt(pred)...), edgeAtoms(pred, b, 0)...)
+		}
+		for _, a := range atoms {
+			if (isErrLoad(a.x) && isEOFValue(a.y)) || (isErrLoad(a.y) && isEOFValue(a.x)) {
+				if a.op == token.EQL {
+					isEOF = true
+				}
+				if a.op == token.NEQ {
+					notEOF = true
+				}
+			}
+		}
+		return
+	}
 	nNil, nErr := 0, 0
 	for _, b := range fn.Blocks {
 		ret, ok := lastInstr(b).(*ssa.Return)
@@ -220,50 +239,27 @@ func runStreamErr(r *core.Run) {
 		if isNilConst(ret.Results[0]) {
 			nNil++
 			fs := blockFacts(b)
-			r.Check(entails(fs, remaining.add(linConst(1), -1)) && eofTested(b, z, true), "Err nil only while pos < len(buf) at EOF", ret.Pos(), "",
+			isEOF, _ := eofKnown(b, nil)
+			r.Check(entails(fs, remaining.add(linConst(1), -1)) && isEOF, "Err nil only while pos < len(buf) at EOF", ret.Pos(), "",
 				fmt.Sprintf("nil is returned under %v: it must require both err == io.EOF and pos < len(buf) (otherwise EOF is hidden after the data is exhausted, or a real error is hidden)", factStrings(fs)))
 			continue
 		}
-		if canon(ret.Results[0]) != z+".err" {
-			r.Unknown("Err result", ret.Pos(), "returns something other than nil or z.err")
+		if !isErrLoad(ret.Results[0]) {
+			r.Unknown("Err result", ret.Pos(), "returns something other than nil or the stored error")
 			continue
 		}
 		nErr++
 		for _, p := range b.Preds {
 			fs := edgeFacts(p, b)
-			viaNotEOF := false
-			if iff, ok := lastInstr(p).(*ssa.If); ok && isEOFCompare(iff.Cond, z) && p.Succs[1] == b {
-				viaNotEOF = true
-			}
-			r.Check(viaNotEOF || entails(fs, remaining.scale(-1)), fmt.Sprintf("Err reports z.err via block %d", p.Index), ret.Pos(), "",
+			_, notEOF := eofKnown(b, p)
+			r.Check(notEOF || entails(fs, remaining.scale(-1)), fmt.Sprintf("Err reports the stored error via block %d", p.Index), ret.Pos(), "",
 				fmt.Sprintf("the stored error is returned under %v, which implies neither err != io.EOF nor pos >= len(buf): io.EOF would surface while unread bytes remain", factStrings(fs)))
+		}
+		if len(b.Preds) == 0 {
+			r.Fail("Err reports the stored error unconditionally", ret.Pos(), "the stored error is returned without testing for io.EOF with unread bytes")
 		}
 	}
 	r.Check(nNil == 1 && nErr == 1, "Err has one hiding and one reporting return", fn.Pos(), "", "unexpected number of returns")
-}
-
-func isEOFCompare(cond ssa.Value, z string) bool {
-	bo, ok := cond.(*ssa.BinOp)
-	if !ok || bo.Op != token.EQL {
-		return false
-	}
-	return (canon(bo.X) == z+".err" && isEOFValue(bo.Y)) || (canon(bo.Y) == z+".err" && isEOFValue(bo.X))
-}
-
-// eofTested: block b is dominated by the true edge of `z.err == io.EOF`.
-func eofTested(b *ssa.BasicBlock, z string, truth bool) bool {
-	for p := b.Idom(); p != nil; p = p.Idom() {
-		if iff, ok := lastInstr(p).(*ssa.If); ok && isEOFCompare(iff.Cond, z) {
-			s := p.Succs[0]
-			if !truth {
-				s = p.Succs[1]
-			}
-			if len(s.Preds) == 1 && (s == b || s.Dominates(b)) {
-				return true
-			}
-		}
-	}
-	return false
 }
 
 func runPoolReuse(r *core.Run) {
